@@ -140,6 +140,14 @@ class CoRef(ExtRef):
         self.ambiguous = False
         self.eq_only = False  # a literal position where the coerced value == a literal of another class
 
+    def deser_obj(self, td, d, c, disc_key=None):
+        # the selected alternative of a discriminated union is an object position like any other:
+        # the coercer is applied (cls=dict) to the datum and its result is type-checked by the object
+        # rules (the discriminator lookup itself, done before, is strict)
+        if disc_key is not None:
+            d = self.co(dict, d)
+        return super().deser_obj(td, d, c, disc_key=disc_key)
+
     def deser(self, td, d, c=None):
         if isinstance(td, (Ann, NewT, Ref, AnyT, Uni, Disc, SubP)):
             return super().deser(td, d, c)
